@@ -16,13 +16,13 @@ def main():
     build_harness()
     d = scratch("replay")
     try:
-        if g in ("store", "http", "cli"):
+        if g in ("store", "http", "cli", "nu"):
             from groups import store
             inp = os.path.join(d, "beh.ndjson")
             open(inp, "w").write(json.dumps(rp["behaviour"]) + "\n")
             sh([XSV, "store-replay", "--in", inp, "--out", os.path.join(d, "trace"), "--jobs", "1", "--probes", "3"]
                + (["--http"] if g in ("http", "cli") else []),
-               env=dict({"XSV_SCRATCH": d}, **({"XSV_CLI": build_xs_bin()} if g == "cli" else {})))
+               env=dict({"XSV_SCRATCH": d}, **({"XSV_CLI": build_xs_bin()} if g == "cli" else {"XSV_NU": "1"} if g == "nu" else {})))
             viols, verdict, _ = store.validate(os.path.join(d, "trace"))
         elif g == "conc":
             from groups import conc
